@@ -199,11 +199,25 @@ func prepareQuery(ctx context.Context, typ Type, selectionSet *SelectionSet, don
 			// Only parse args once for a given selection.
 			if !selection.parsed {
 				selection.parsed = true
+				selection.parsedFor = field
 				parsed, err := field.ParseArguments(selection.UnparsedArgs)
 				if err != nil {
 					return NewClientError(`error parsing args for "%s": %s`, selection.Name, err)
 				}
 				selection.Args = parsed
+			} else if selection.parsedFor != nil && selection.parsedFor != field {
+				// The selection is shared by several places (a named fragment
+				// spread under different object types) and Args holds what the
+				// first field's parser made of the arguments. They have to be
+				// valid for this field as well, and of the type its resolver
+				// takes.
+				parsed, err := field.ParseArguments(selection.UnparsedArgs)
+				if err != nil {
+					return NewClientError(`error parsing args for "%s": %s`, selection.Name, err)
+				}
+				if reflect.TypeOf(parsed) != reflect.TypeOf(selection.Args) {
+					return NewClientError(`field "%s" is selected by one fragment under object types that take different arguments for it`, selection.Name)
+				}
 			}
 
 			selection.ParentType = typ.Name
